@@ -2,7 +2,7 @@
   Props/C17.lean — interpretation contexts nest and unwind like a stack.
 
   All theorems are about `FV.C17.exec` / `FV.C17.interp` (Model/C17.lean) for EVERY program, every
-  environment (names, rule tables) and every initial stack — no size bound.
+  environment (names, rule tables), every initial stack and every cache content — no size bound.
 -/
 import FunsorVerif.Model.C17
 namespace FV.Props.C17
@@ -27,12 +27,22 @@ theorem enterI_push {i : I} {s s' : Stack} (h : enterI i s = .ok s') : ∃ x, s'
       · cases h
       · next p _ => exact ⟨p, by cases h; rfl⟩
 
-theorem enter_push {env : Env} {c : Ctx} {s s' : Stack} (h : enter env c s = .ok s') :
-    ∃ x, s' = push x s := by
+/-- what `enter` does, spelled out -/
+theorem enter_ok {env : Env} {c : Ctx} {s s' : Stack} {nx n : Nat}
+    (h : enter env c s nx = .ok (s', n)) :
+    ∃ i, ctxObj env c s nx = .ok (i, n) ∧ enterI i s = .ok s' := by
   unfold enter at h
   split at h
   · cases h
-  · exact enterI_push h
+  · next i n' hc =>
+    split at h
+    · cases h
+    · next s1 he => cases h; exact ⟨i, hc, he⟩
+
+theorem enter_push {env : Env} {c : Ctx} {s s' : Stack} {nx n : Nat}
+    (h : enter env c s nx = .ok (s', n)) : ∃ x, s' = push x s := by
+  obtain ⟨i, _, he⟩ := enter_ok h
+  exact enterI_push he
 
 theorem prefix_push (i : I) (s : Stack) : s <+: push i s := by
   simp [push]
@@ -40,8 +50,8 @@ theorem prefix_push (i : I) (s : Stack) : s <+: push i s := by
 /-! ### interpreting a probe restores the stack (temporary pushes of AdjointTape / substitute) -/
 
 /-- `with i: body` restores the stack whenever the body does. -/
-theorem withObj_stack (i : I) (s : Stack) (body : Stack → IRes)
-    (hb : ∀ s1, (body s1).stack = s1) : (withObj i s body).stack = s := by
+theorem withObj_stack (i : I) (s : Stack) (cs : Caches) (body : Stack → IRes)
+    (hb : ∀ s1, (body s1).stack = s1) : (withObj i s cs body).stack = s := by
   unfold withObj
   split
   · rfl
@@ -50,46 +60,52 @@ theorem withObj_stack (i : I) (s : Stack) (body : Stack → IRes)
     simp only [hb, pop?_push]
 
 mutual
-theorem interp_stack (env : Env) (k : K) (armed : Bool) :
-    ∀ (i : I) (s : Stack), (interp env k armed i s).stack = s
-  | .reflect, s => by simp [interp]
-  | .disp n, s => by
+theorem interp_stack (env : Env) (k : K) (tok : Nat) (armed : Bool) :
+    ∀ (i : I) (s : Stack) (cs : Caches), (interp env k tok armed i s cs).stack = s
+  | .reflect, s, cs => by simp [interp]
+  | .disp n, s, cs => by
       simp only [interp]; split <;> rfl
-  | .prio _ l, s => by
-      simp only [interp]; exact interpList_stack env k armed l s
-  | .memo b, s => by
-      simp only [interp]; exact interp_stack env k armed b s
-  | .tape old, s => by
-      have ih := interp_stack env k armed old
-      have h1 : (if env.adjointOp k = true then withObj old s (fun s1 => interp env k armed old s1)
-          else interp env k armed old s).stack = s := by
+  | .prio _ l, s, cs => by
+      simp only [interp]; exact interpList_stack env k tok armed l s cs
+  | .memo cid sh b, s, cs => by
+      have ih := interp_stack env k tok armed b s cs
+      simp only [interp]
+      split
+      · rfl
+      · split
+        · exact ih
+        · exact ih
+  | .tape old, s, cs => by
+      have ih := interp_stack env k tok armed old
+      have h1 : (if env.adjointOp k = true then withObj old s cs (fun s1 => interp env k tok armed old s1 cs)
+          else interp env k tok armed old s cs).stack = s := by
         split
-        · exact withObj_stack old s _ (fun s1 => ih s1)
-        · exact ih s
+        · exact withObj_stack old s cs _ (fun s1 => ih s1 cs)
+        · exact ih s cs
       simp only [interp]
       split
       · simp only []
         rw [h1]
-        exact withObj_stack old s _ (fun _ => rfl)
+        exact withObj_stack old s _ _ (fun _ => rfl)
       · exact h1
-  | .subst live b, s => by
-      have ih := interp_stack env k armed b
+  | .subst live b, s, cs => by
+      have ih := interp_stack env k tok armed b
       simp only [interp]
       apply withObj_stack
       intro s1
       split
       · split
         · simp [ih]
-        · exact ih s1
-      · exact ih s1
-theorem interpList_stack (env : Env) (k : K) (armed : Bool) :
-    ∀ (l : List I) (s : Stack), (interpList env k armed l s).stack = s
-  | [], s => by simp [interpList]
-  | x :: xs, s => by
-      have h := interp_stack env k armed x s
+        · exact ih s1 cs
+      · exact ih s1 cs
+theorem interpList_stack (env : Env) (k : K) (tok : Nat) (armed : Bool) :
+    ∀ (l : List I) (s : Stack) (cs : Caches), (interpList env k tok armed l s cs).stack = s
+  | [], s, cs => by simp [interpList]
+  | x :: xs, s, cs => by
+      have h := interp_stack env k tok armed x s cs
       simp only [interpList]
       split
-      · rw [h]; exact interpList_stack env k armed xs s
+      · rw [h]; exact interpList_stack env k tok armed xs s _
       · exact h
 end
 
@@ -104,19 +120,19 @@ theorem exec_restores_stack (env : Env) :
   | .skip, st => rfl
   | .obs, st => rfl
   | .raise, st => rfl
-  | .probe k armed, st => by
+  | .probe k armed tok, st => by
       simp only [exec]
       split
       · rfl
-      · next t _ => exact interp_stack env k armed t st.stack
+      · next t _ => exact interp_stack env k tok armed t st.stack st.caches
   | .withI c body, st => by
       simp only [exec]
       split
       · rfl
-      · next s1 h =>
+      · next s1 n h =>
         obtain ⟨x, rfl⟩ := enter_push h
-        have ih := exec_restores_stack env body { st with stack := push x st.stack }
-        generalize exec env body { st with stack := push x st.stack } = r at ih
+        have ih := exec_restores_stack env body { st with stack := push x st.stack, next := n }
+        generalize exec env body { st with stack := push x st.stack, next := n } = r at ih
         obtain ⟨o, st2⟩ := r
         simp only [] at ih ⊢
         rw [ih, pop?_push]
@@ -124,10 +140,10 @@ theorem exec_restores_stack (env : Env) :
       simp only [exec]
       split
       · rfl
-      · next s1 h =>
+      · next s1 n h =>
         obtain ⟨x, rfl⟩ := enter_push h
-        have ih := exec_restores_stack env body { st with stack := push x st.stack }
-        generalize exec env body { st with stack := push x st.stack } = r at ih
+        have ih := exec_restores_stack env body { st with stack := push x st.stack, next := n }
+        generalize exec env body { st with stack := push x st.stack, next := n } = r at ih
         obtain ⟨o, st2⟩ := r
         simp only [] at ih ⊢
         rw [ih, pop?_push]
@@ -145,7 +161,6 @@ theorem exec_restores_stack (env : Env) :
       simp only [exec]
       exact ih
 
-
 /-- **Decorator form.**  Calling a function decorated with `c` is `with c:` around its body, entered AT
     CALL TIME on the call-time stack (ContextDecorator: `with self._recreate_cm(): return func()`); the
     decoration itself does not touch the stack.  (The harness decorates at one stack state and calls at
@@ -160,16 +175,17 @@ theorem deco_is_with_at_call_time (env : Env) (c : Ctx) (body : Prog) (st : St) 
 def EnterClosed (Q : Stack → Prop) : Prop :=
   ∀ (i : I) (s s' : Stack), Q s → enterI i s = .ok s' → Q s'
 
-theorem withObj_ok_fired {i : I} {s s1 : Stack} {body : Stack → IRes} (he : enterI i s = .ok s1) :
-    (withObj i s body).fired = (body s1).fired := by
+theorem withObj_ok_fired {i : I} {s s1 : Stack} {cs : Caches} {body : Stack → IRes}
+    (he : enterI i s = .ok s1) : (withObj i s cs body).fired = (body s1).fired := by
   unfold withObj
   rw [he]
   simp only []
   cases pop? (body s1).stack <;> rfl
 
-theorem withObj_fired (Q : Stack → Prop) (hQ : EnterClosed Q) (i : I) (s : Stack) (body : Stack → IRes)
+theorem withObj_fired (Q : Stack → Prop) (hQ : EnterClosed Q) (i : I) (s : Stack) (cs : Caches)
+    (body : Stack → IRes)
     (hb : ∀ s1 h fs, Q s1 → (body s1).fired = some (h, fs) → Q fs) (hs : Q s) :
-    ∀ h fs, (withObj i s body).fired = some (h, fs) → Q fs := by
+    ∀ h fs, (withObj i s cs body).fired = some (h, fs) → Q fs := by
   intro h fs hf
   cases he : enterI i s with
   | error e => simp [withObj, he] at hf
@@ -179,59 +195,68 @@ theorem withObj_fired (Q : Stack → Prop) (hQ : EnterClosed Q) (i : I) (s : Sta
 
 mutual
 /-- The stack seen by the rule that fires (inside the tape's / substitute's temporary pushes) keeps `Q`. -/
-theorem interp_fired_inv (Q : Stack → Prop) (hQ : EnterClosed Q) (env : Env) (k : K) (armed : Bool) :
-    ∀ (i : I) (s : Stack), Q s → ∀ h fs, (interp env k armed i s).fired = some (h, fs) → Q fs
-  | .reflect, s, hs, h, fs, hf => by
+theorem interp_fired_inv (Q : Stack → Prop) (hQ : EnterClosed Q) (env : Env) (k : K) (tok : Nat)
+    (armed : Bool) :
+    ∀ (i : I) (s : Stack) (cs : Caches), Q s →
+      ∀ h fs, (interp env k tok armed i s cs).fired = some (h, fs) → Q fs
+  | .reflect, s, cs, hs, h, fs, hf => by
       simp only [interp, Option.some.injEq, Prod.mk.injEq] at hf; rw [← hf.2]; exact hs
-  | .disp n, s, hs, h, fs, hf => by
+  | .disp n, s, cs, hs, h, fs, hf => by
       simp only [interp] at hf
       split at hf
       · simp only [Option.some.injEq, Prod.mk.injEq] at hf; rw [← hf.2]; exact hs
       · cases hf
-  | .prio _ l, s, hs, h, fs, hf => by
-      simp only [interp] at hf; exact interpList_fired_inv Q hQ env k armed l s hs h fs hf
-  | .memo b, s, hs, h, fs, hf => by
-      simp only [interp] at hf; exact interp_fired_inv Q hQ env k armed b s hs h fs hf
-  | .tape old, s, hs, h, fs, hf => by
-      have ih := interp_fired_inv Q hQ env k armed old
-      have h1 : ∀ h fs, (if env.adjointOp k = true then withObj old s (fun s1 => interp env k armed old s1)
-          else interp env k armed old s).fired = some (h, fs) → Q fs := by
+  | .prio _ l, s, cs, hs, h, fs, hf => by
+      simp only [interp] at hf; exact interpList_fired_inv Q hQ env k tok armed l s cs hs h fs hf
+  | .memo cid sh b, s, cs, hs, h, fs, hf => by
+      have ih := interp_fired_inv Q hQ env k tok armed b s cs hs h fs
+      simp only [interp] at hf
+      split at hf
+      · simp only [Option.some.injEq, Prod.mk.injEq] at hf; rw [← hf.2]; exact hs
+      · split at hf
+        · exact ih hf
+        · exact ih hf
+  | .tape old, s, cs, hs, h, fs, hf => by
+      have ih := interp_fired_inv Q hQ env k tok armed old
+      have h1 : ∀ h fs, (if env.adjointOp k = true then
+            withObj old s cs (fun s1 => interp env k tok armed old s1 cs)
+          else interp env k tok armed old s cs).fired = some (h, fs) → Q fs := by
         intro h fs hf
         split at hf
-        · exact withObj_fired Q hQ old s _ (fun s1 h fs q1 hf => ih s1 q1 h fs hf) hs h fs hf
-        · exact ih s hs h fs hf
+        · exact withObj_fired Q hQ old s cs _ (fun s1 h fs q1 hf => ih s1 cs q1 h fs hf) hs h fs hf
+        · exact ih s cs hs h fs hf
       simp only [interp] at hf
       split at hf
       · exact h1 h fs hf
       · exact h1 h fs hf
-  | .subst live b, s, hs, h, fs, hf => by
-      have ih := interp_fired_inv Q hQ env k armed b
+  | .subst live b, s, cs, hs, h, fs, hf => by
+      have ih := interp_fired_inv Q hQ env k tok armed b
       simp only [interp] at hf
-      refine withObj_fired Q hQ b s _ ?_ hs h fs hf
+      refine withObj_fired Q hQ b s cs _ ?_ hs h fs hf
       intro s1 h fs q1 hf
       split at hf
       · split at hf
         · simp only [Option.some.injEq, Prod.mk.injEq] at hf
           rw [← hf.2, interp_stack]; exact q1
-        · exact ih s1 q1 h fs hf
-      · exact ih s1 q1 h fs hf
-theorem interpList_fired_inv (Q : Stack → Prop) (hQ : EnterClosed Q) (env : Env) (k : K) (armed : Bool) :
-    ∀ (l : List I) (s : Stack), Q s → ∀ h fs, (interpList env k armed l s).fired = some (h, fs) → Q fs
-  | [], s, hs, h, fs, hf => by simp [interpList] at hf
-  | x :: xs, s, hs, h, fs, hf => by
+        · exact ih s1 cs q1 h fs hf
+      · exact ih s1 cs q1 h fs hf
+theorem interpList_fired_inv (Q : Stack → Prop) (hQ : EnterClosed Q) (env : Env) (k : K) (tok : Nat)
+    (armed : Bool) :
+    ∀ (l : List I) (s : Stack) (cs : Caches), Q s →
+      ∀ h fs, (interpList env k tok armed l s cs).fired = some (h, fs) → Q fs
+  | [], s, cs, hs, h, fs, hf => by simp [interpList] at hf
+  | x :: xs, s, cs, hs, h, fs, hf => by
       simp only [interpList] at hf
       split at hf
       · rw [interp_stack] at hf
-        exact interpList_fired_inv Q hQ env k armed xs s hs h fs hf
-      · exact interp_fired_inv Q hQ env k armed x s hs h fs hf
+        exact interpList_fired_inv Q hQ env k tok armed xs s _ hs h fs hf
+      · exact interp_fired_inv Q hQ env k tok armed x s cs hs h fs hf
 end
 
 theorem enter_closed {Q : Stack → Prop} (hQ : EnterClosed Q) {env : Env} {c : Ctx} {s s' : Stack}
-    (hs : Q s) (h : enter env c s = .ok s') : Q s' := by
-  unfold enter at h
-  split at h
-  · cases h
-  · next i _ => exact hQ i s s' hs h
+    {nx n : Nat} (hs : Q s) (h : enter env c s nx = .ok (s', n)) : Q s' := by
+  obtain ⟨i, _, he⟩ := enter_ok h
+  exact hQ i s s' hs he
 
 /-- Generic invariant: the log only grows, and every stack observed while the program runs
     (at `obs`, and at the moment a rule fires) satisfies any enter-closed predicate that held at
@@ -242,26 +267,28 @@ theorem exec_obs_invariant (Q : Stack → Prop) (hQ : EnterClosed Q) (env : Env)
   | .skip, st, _ => ⟨[], rfl, by simp⟩
   | .obs, st, hs => ⟨[.at st.stack], rfl, by simpa [Obs.stack] using hs⟩
   | .raise, st, _ => ⟨[], rfl, by simp⟩
-  | .probe k armed, st, hs => by
+  | .probe k armed tok, st, hs => by
       simp only [exec]
       split
       · exact ⟨[], rfl, by simp⟩
       · next t _ =>
-        cases hf : (interp env k armed t st.stack).fired with
-        | none => exact ⟨[.probe k none st.stack], by simp, by simpa [Obs.stack] using hs⟩
+        cases hf : (interp env k tok armed t st.stack st.caches).fired with
+        | none =>
+          refine ⟨[_], rfl, ?_⟩
+          simpa [Obs.stack] using hs
         | some hfs =>
           obtain ⟨h, fs⟩ := hfs
-          refine ⟨[.probe k (some h) fs], by simp, ?_⟩
-          have := interp_fired_inv Q hQ env k armed t st.stack hs h fs hf
+          refine ⟨[_], rfl, ?_⟩
+          have := interp_fired_inv Q hQ env k tok armed t st.stack st.caches hs h fs hf
           simpa [Obs.stack] using this
   | .withI c body, st, hs => by
       simp only [exec]
       split
       · exact ⟨[], rfl, by simp⟩
-      · next s1 h =>
+      · next s1 n h =>
         have q1 : Q s1 := enter_closed hQ hs h
-        obtain ⟨new, hl, hq⟩ := exec_obs_invariant Q hQ env body { st with stack := s1 } q1
-        generalize exec env body { st with stack := s1 } = r at hl
+        obtain ⟨new, hl, hq⟩ := exec_obs_invariant Q hQ env body { st with stack := s1, next := n } q1
+        generalize exec env body { st with stack := s1, next := n } = r at hl
         obtain ⟨o, st2⟩ := r
         simp only [] at hl ⊢
         split <;> exact ⟨new, hl, hq⟩
@@ -269,10 +296,10 @@ theorem exec_obs_invariant (Q : Stack → Prop) (hQ : EnterClosed Q) (env : Env)
       simp only [exec]
       split
       · exact ⟨[], rfl, by simp⟩
-      · next s1 h =>
+      · next s1 n h =>
         have q1 : Q s1 := enter_closed hQ hs h
-        obtain ⟨new, hl, hq⟩ := exec_obs_invariant Q hQ env body { st with stack := s1 } q1
-        generalize exec env body { st with stack := s1 } = r at hl
+        obtain ⟨new, hl, hq⟩ := exec_obs_invariant Q hQ env body { st with stack := s1, next := n } q1
+        generalize exec env body { st with stack := s1, next := n } = r at hl
         obtain ⟨o, st2⟩ := r
         simp only [] at hl ⊢
         split <;> exact ⟨new, hl, hq⟩
@@ -313,27 +340,28 @@ theorem depth_never_below_base (env : Env) (p : Prog) (st : St) :
     (List.prefix_refl _)
 
 /-- In particular the import-time base `[reflect, eager]` stays at the bottom, in place. -/
-theorem base_never_popped (env : Env) (p : Prog) (r e : I) (rest : Stack) (log : List Obs) :
-    ∃ new, (exec env p ⟨r :: e :: rest, log⟩).2.log = new ++ log ∧
+theorem base_never_popped (env : Env) (p : Prog) (r e : I) (rest : Stack) (st : St)
+    (hst : st.stack = r :: e :: rest) :
+    ∃ new, (exec env p st).2.log = new ++ st.log ∧
       ∀ o ∈ new, o.stack.take 2 = [r, e] ∧ 2 ≤ o.stack.length := by
-  obtain ⟨new, hl, hq⟩ := depth_never_below_base env p ⟨r :: e :: rest, log⟩
+  obtain ⟨new, hl, hq⟩ := depth_never_below_base env p st
   refine ⟨new, hl, fun o ho => ?_⟩
   obtain ⟨t, ht⟩ := hq o ho
-  simp only [] at ht
+  rw [hst] at ht
   rw [← ht]
   simp
-
 
 /-! ### who interprets: the innermost context, partial ones falling through -/
 
 mutual
 /-- Well-formed objects: what a tape / a SubstituteInterpretation captured was total (true of anything
-    taken from a stack whose entries are total, see `stack_stays_total`), so their inner `with` cannot refuse. -/
+    taken from a stack whose entries are total, see `stack_stays_total`), so their inner `with` cannot
+    refuse; and every Memoize owns its cache (`memoize()` without an explicit `cache=`). -/
 def WF : I → Bool
   | .reflect => true
   | .disp _ => true
   | .prio _ l => allWF l
-  | .memo b => WF b
+  | .memo _ sh b => !sh && WF b
   | .tape old => old.isTotal && WF old
   | .subst _ b => b.isTotal && WF b
 def allWF : List I → Bool
@@ -345,52 +373,61 @@ theorem enterI_total {i : I} (s : Stack) (h : i.isTotal = true) : enterI i s = .
   simp [enterI, h]
 
 /-- Entering a total object and leaving it again around a stack-restoring body. -/
-theorem withObj_total_eq {i : I} (s : Stack) (body : Stack → IRes) (h : i.isTotal = true)
+theorem withObj_total_eq {i : I} (s : Stack) (cs : Caches) (body : Stack → IRes) (h : i.isTotal = true)
     (hb : (body (push i s)).stack = push i s) :
-    withObj i s body = ⟨(body (push i s)).out, s, (body (push i s)).fired⟩ := by
+    withObj i s cs body = ⟨(body (push i s)).out, s, (body (push i s)).fired,
+      (body (push i s)).caches, (body (push i s)).hit⟩ := by
   unfold withObj
   rw [enterI_total s h]
   simp only [hb, pop?_push]
 
+theorem IRes.eta (r : IRes) : r = ⟨r.out, r.stack, r.fired, r.caches, r.hit⟩ := by
+  cases r; rfl
+
 /-- AdjointTape.interpret when the captured interpretation is total: the probe is interpreted by the
     captured one, under one temporary push for classes in `adjoint_ops`. -/
-theorem interp_tape_eq (env : Env) (k : K) (armed : Bool) (old : I) (s : Stack)
+theorem interp_tape_eq (env : Env) (k : K) (tok : Nat) (armed : Bool) (old : I) (s : Stack) (cs : Caches)
     (ht : old.isTotal = true) :
-    interp env k armed (.tape old) s =
-      ⟨(interp env k armed old (if env.adjointOp k = true then push old s else s)).out, s,
-       (interp env k armed old (if env.adjointOp k = true then push old s else s)).fired⟩ := by
-  have e2 : ∀ s', withObj old s' (fun s1 => (⟨.normal, s1, none⟩ : IRes)) = ⟨.normal, s', none⟩ :=
-    fun s' => withObj_total_eq s' _ ht rfl
+    interp env k tok armed (.tape old) s cs =
+      ⟨(interp env k tok armed old (if env.adjointOp k = true then push old s else s) cs).out, s,
+       (interp env k tok armed old (if env.adjointOp k = true then push old s else s) cs).fired,
+       (interp env k tok armed old (if env.adjointOp k = true then push old s else s) cs).caches,
+       (interp env k tok armed old (if env.adjointOp k = true then push old s else s) cs).hit⟩ := by
+  have e2 : ∀ s' c, withObj old s' c (fun s1 => (⟨.normal, s1, none, c, false⟩ : IRes))
+      = ⟨.normal, s', none, c, false⟩ :=
+    fun s' c => withObj_total_eq s' c _ ht rfl
   simp only [interp]
   by_cases hadj : env.adjointOp k = true
   · simp only [hadj, if_true]
-    rw [withObj_total_eq s _ ht (interp_stack env k armed old _)]
-    cases ho : (interp env k armed old (push old s)).out with
+    rw [withObj_total_eq s cs _ ht (interp_stack env k tok armed old _ _)]
+    cases ho : (interp env k tok armed old (push old s) cs).out with
     | normal => simp only [e2]
     | exc e => simp only []
   · simp only [hadj, if_false, Bool.false_eq_true]
-    cases ho : (interp env k armed old s).out with
+    cases ho : (interp env k tok armed old s cs).out with
     | normal => simp only [e2, interp_stack]
     | exc e =>
       simp only []
-      rw [← ho]
-      have := interp_stack env k armed old s
-      cases hr : interp env k armed old s with
-      | mk o st f => rw [hr] at this; simp only [] at this; rw [this]
+      have h1 := IRes.eta (interp env k tok armed old s cs)
+      rw [interp_stack, ho] at h1
+      exact h1
 
 /-- SubstituteInterpretation.interpret when its base is total. -/
-theorem interp_subst_eq (env : Env) (k : K) (armed : Bool) (live : Bool) (b : I) (s : Stack)
-    (ht : b.isTotal = true) :
-    interp env k armed (.subst live b) s =
-      match (interp env k armed b (push b s)).out with
+theorem interp_subst_eq (env : Env) (k : K) (tok : Nat) (armed : Bool) (live : Bool) (b : I) (s : Stack)
+    (cs : Caches) (ht : b.isTotal = true) :
+    interp env k tok armed (.subst live b) s cs =
+      match (interp env k tok armed b (push b s) cs).out with
       | .normal =>
         if (live && env.substK k) = true then
-          ⟨if armed = true then .exc .probe else .normal, s, some ("subst", push b s)⟩
-        else ⟨.normal, s, (interp env k armed b (push b s)).fired⟩
-      | .exc e => ⟨.exc e, s, (interp env k armed b (push b s)).fired⟩ := by
+          ⟨if armed = true then .exc .probe else .normal, s, some ("subst", push b s),
+           (interp env k tok armed b (push b s) cs).caches, false⟩
+        else ⟨.normal, s, (interp env k tok armed b (push b s) cs).fired,
+              (interp env k tok armed b (push b s) cs).caches, (interp env k tok armed b (push b s) cs).hit⟩
+      | .exc e => ⟨.exc e, s, (interp env k tok armed b (push b s) cs).fired,
+                   (interp env k tok armed b (push b s) cs).caches, (interp env k tok armed b (push b s) cs).hit⟩ := by
   simp only [interp]
-  rw [withObj_total_eq s _ ht]
-  · cases ho : (interp env k armed b (push b s)).out with
+  rw [withObj_total_eq s cs _ ht]
+  · cases ho : (interp env k tok armed b (push b s) cs).out with
     | normal =>
       simp only []
       split
@@ -400,137 +437,282 @@ theorem interp_subst_eq (env : Env) (k : K) (armed : Bool) (live : Bool) (b : I)
   · split
     · split
       · simp [interp_stack]
-      · exact interp_stack env k armed b _
-    · exact interp_stack env k armed b _
+      · exact interp_stack env k tok armed b _ _
+    · exact interp_stack env k tok armed b _ _
+
+/-! ### Memoize caches: a cache owned by one Memoize only ever holds that Memoize's own answers -/
 
 mutual
-/-- **innermost_interprets (core).**  Whenever interpretation returns normally, the rule that
-    produced the value is `handler i` — a function of the interpretation object alone: not of the
-    stack below it, not of the temporary pushes. -/
-theorem interp_handler (env : Env) (k : K) (armed : Bool) :
-    ∀ (i : I) (s : Stack), WF i = true → (interp env k armed i s).out = .normal →
-      (interp env k armed i s).fired.map Prod.fst = handler env k i
-  | .reflect, s, _, _ => by simp [interp, handler]
-  | .disp n, s, _, _ => by
-      simp only [interp, handler]; split <;> rfl
-  | .prio _ l, s, hw, ho => by
-      simp only [interp] at ho
+theorem beq_eq : ∀ (a b : I), I.beq a b = true → a = b
+  | .reflect, b, h => by cases b <;> simp [I.beq] at h ⊢
+  | .disp n, b, h => by
+      cases b <;> simp [I.beq] at h ⊢
+      exact h
+  | .prio t l, b, h => by
+      cases b with
+      | prio t' l' =>
+        simp only [I.beq, Bool.and_eq_true, beq_iff_eq] at h
+        rw [h.1, beqList_eq l l' h.2]
+      | _ => simp [I.beq] at h
+  | .memo c sh x, b, h => by
+      cases b with
+      | memo c' sh' x' =>
+        simp only [I.beq, Bool.and_eq_true, beq_iff_eq] at h
+        rw [h.1.1, h.1.2, beq_eq x x' h.2]
+      | _ => simp [I.beq] at h
+  | .tape o, b, h => by
+      cases b with
+      | tape o' =>
+        simp only [I.beq] at h
+        rw [beq_eq o o' h]
+      | _ => simp [I.beq] at h
+  | .subst l x, b, h => by
+      cases b with
+      | subst l' x' =>
+        simp only [I.beq, Bool.and_eq_true, beq_iff_eq] at h
+        rw [h.1, beq_eq x x' h.2]
+      | _ => simp [I.beq] at h
+theorem beqList_eq : ∀ (l l' : List I), beqList l l' = true → l = l'
+  | [], l', h => by cases l' <;> simp [beqList] at h ⊢
+  | x :: xs, l', h => by
+      cases l' with
+      | nil => simp [beqList] at h
+      | cons y ys =>
+        simp only [beqList, Bool.and_eq_true] at h
+        rw [beq_eq x y h.1, beqList_eq xs ys h.2]
+end
+
+/-- **The cache invariant.**  Every entry of a cache created by `memoize()` (no explicit `cache=`) is
+    the answer of THIS Memoize's own base interpretation for that key. -/
+def CacheOK (env : Env) (cs : Caches) : Prop :=
+  ∀ r ∈ cs, r.shared = false → ∀ e ∈ r.entries, some e.h = handler env e.k r.base
+
+theorem findEntry_mem : ∀ (es : List CEntry) (k : K) (tok : Nat) (h : String),
+    findEntry es k tok = some h → ∃ e ∈ es, e.k = k ∧ e.h = h
+  | [], k, tok, h, hf => by simp [findEntry] at hf
+  | e :: r, k, tok, h, hf => by
+      simp only [findEntry] at hf
+      split at hf
+      · next hc =>
+        simp only [Bool.and_eq_true, beq_iff_eq] at hc
+        exact ⟨e, by simp, hc.1, by simpa using hf⟩
+      · obtain ⟨e', he', hk⟩ := findEntry_mem r k tok h hf
+        exact ⟨e', by simp [he'], hk⟩
+
+theorem isFor_fresh {r : CRec} {cid : Nat} {b : I} (h : r.isFor cid false b = true) :
+    r.shared = false ∧ r.base = b := by
+  simp only [CRec.isFor, Bool.and_eq_true, beq_iff_eq, Bool.false_or] at h
+  exact ⟨h.1.2, beq_eq _ _ h.2⟩
+
+theorem cacheGet_sound (env : Env) : ∀ (cs : Caches) (cid : Nat) (b : I) (k : K) (tok : Nat) (x : String),
+    CacheOK env cs → cacheGet cs cid false b k tok = some x → some x = handler env k b
+  | [], _, _, _, _, _, _, h => by simp [cacheGet] at h
+  | r :: rs, cid, b, k, tok, x, hc, h => by
+      simp only [cacheGet] at h
+      split at h
+      · next hfor =>
+        obtain ⟨hsh, hb⟩ := isFor_fresh hfor
+        obtain ⟨e, he, hk, hh⟩ := findEntry_mem _ _ _ _ h
+        have := hc r (by simp) hsh e he
+        rw [hk, hh, hb] at this
+        exact this
+      · exact cacheGet_sound env rs cid b k tok x (fun r' hr' => hc r' (by simp [hr'])) h
+
+theorem cachePut_ok (env : Env) (cid : Nat) (sh : Bool) (b : I) (k : K) (tok : Nat) (h : String)
+    (hh : sh = false → some h = handler env k b) :
+    ∀ (cs : Caches), CacheOK env cs → CacheOK env (cachePut cs cid sh b k tok h)
+  | [], _ => by
+      intro r hr hsh e he
+      simp only [cachePut, List.mem_singleton] at hr
+      subst hr
+      simp only [List.mem_singleton] at he
+      subst he
+      exact hh hsh
+  | r :: rs, hc => by
+      simp only [cachePut]
+      split
+      · next hfor =>
+        intro r' hr' hsh e he
+        rcases List.mem_cons.mp hr' with rfl | hr'
+        · simp only [List.mem_cons] at he
+          rcases he with rfl | he
+          · simp only [] at hsh
+            have hshf : sh = false := by
+              simp only [CRec.isFor, Bool.and_eq_true, beq_iff_eq] at hfor
+              rw [← hfor.1.2]; exact hsh
+            subst hshf
+            obtain ⟨_, hb⟩ := isFor_fresh hfor
+            simp only []
+            rw [hb]
+            exact hh rfl
+          · exact hc r (by simp) hsh e he
+        · exact hc r' (by simp [hr']) hsh e he
+      · intro r' hr' hsh e he
+        rcases List.mem_cons.mp hr' with rfl | hr'
+        · exact hc r' (by simp) hsh e he
+        · exact cachePut_ok env cid sh b k tok h hh rs (fun r'' hr'' => hc r'' (by simp [hr''])) r' hr' hsh e he
+
+mutual
+/-- **Memoization is transparent** (and **innermost_interprets**, core).  Under objects that own their
+    caches, interpretation keeps the cache invariant, and whenever it returns, the value is the one
+    `handler i` produces — a function of the interpretation object alone: not of the stack below it,
+    not of the temporary pushes, and not of what any cache holds (a `memoize()` block never returns an
+    answer produced under a different base). -/
+theorem interp_transparent (env : Env) (k : K) (tok : Nat) (armed : Bool) :
+    ∀ (i : I) (s : Stack) (cs : Caches), WF i = true → CacheOK env cs →
+      CacheOK env (interp env k tok armed i s cs).caches ∧
+      ((interp env k tok armed i s cs).out = .normal →
+        (interp env k tok armed i s cs).fired.map Prod.fst = handler env k i)
+  | .reflect, s, cs, _, hc => by simp [interp, handler, hc]
+  | .disp n, s, cs, _, hc => by
       simp only [interp, handler]
-      exact interpList_handler env k armed l s (by simpa [WF] using hw) ho
-  | .memo b, s, hw, ho => by
-      simp only [interp] at ho
+      split
+      · exact ⟨hc, fun _ => rfl⟩
+      · exact ⟨hc, fun _ => rfl⟩
+  | .prio _ l, s, cs, hw, hc => by
       simp only [interp, handler]
-      exact interp_handler env k armed b s (by simpa [WF] using hw) ho
-  | .tape old, s, hw, ho => by
+      exact interpList_transparent env k tok armed l s cs (by simpa [WF] using hw) hc
+  | .memo cid sh b, s, cs, hw, hc => by
+      simp only [WF, Bool.and_eq_true, Bool.not_eq_eq_eq_not, Bool.not_true] at hw
+      obtain ⟨hsh, hwb⟩ := hw
+      subst hsh
+      have ih := interp_transparent env k tok armed b s cs hwb hc
+      simp only [interp, handler]
+      split
+      · next x hx =>
+        exact ⟨hc, fun _ => by simpa using cacheGet_sound env cs cid b k tok x hc hx⟩
+      · split
+        · next ho hf =>
+          refine ⟨?_, ih.2⟩
+          refine cachePut_ok env cid false b k tok _ (fun _ => ?_) _ ih.1
+          have := ih.2 ho
+          rw [hf] at this
+          simpa using this
+        · exact ih
+  | .tape old, s, cs, hw, hc => by
       simp only [WF, Bool.and_eq_true] at hw
-      rw [interp_tape_eq env k armed old s hw.1] at ho ⊢
+      rw [interp_tape_eq env k tok armed old s cs hw.1]
       simp only [handler]
-      exact interp_handler env k armed old _ hw.2 ho
-  | .subst live b, s, hw, ho => by
+      exact interp_transparent env k tok armed old _ cs hw.2 hc
+  | .subst live b, s, cs, hw, hc => by
       simp only [WF, Bool.and_eq_true] at hw
-      rw [interp_subst_eq env k armed live b s hw.1] at ho ⊢
+      have ih := interp_transparent env k tok armed b (push b s) cs hw.2 hc
+      rw [interp_subst_eq env k tok armed live b s cs hw.1]
       simp only [handler]
-      cases hb : (interp env k armed b (push b s)).out with
+      cases hb : (interp env k tok armed b (push b s) cs).out with
       | normal =>
-        rw [hb] at ho
         simp only []
         split
-        · rfl
-        · exact interp_handler env k armed b _ hw.2 hb
-      | exc e => rw [hb] at ho; simp at ho
-theorem interpList_handler (env : Env) (k : K) (armed : Bool) :
-    ∀ (l : List I) (s : Stack), allWF l = true → (interpList env k armed l s).out = .normal →
-      (interpList env k armed l s).fired.map Prod.fst = handlerList env k l
-  | [], s, _, _ => by simp [interpList, handlerList]
-  | x :: xs, s, hw, ho => by
+        · exact ⟨ih.1, fun _ => rfl⟩
+        · exact ⟨ih.1, fun _ => ih.2 hb⟩
+      | exc e => exact ⟨ih.1, fun h => by simp at h⟩
+theorem interpList_transparent (env : Env) (k : K) (tok : Nat) (armed : Bool) :
+    ∀ (l : List I) (s : Stack) (cs : Caches), allWF l = true → CacheOK env cs →
+      CacheOK env (interpList env k tok armed l s cs).caches ∧
+      ((interpList env k tok armed l s cs).out = .normal →
+        (interpList env k tok armed l s cs).fired.map Prod.fst = handlerList env k l)
+  | [], s, cs, _, hc => by simp [interpList, handlerList, hc]
+  | x :: xs, s, cs, hw, hc => by
       simp only [allWF, Bool.and_eq_true] at hw
-      simp only [interpList] at ho
+      have ihx := interp_transparent env k tok armed x s cs hw.1 hc
       simp only [interpList, handlerList]
-      split at ho
+      split
       · next hon hfn =>
-        have ihx := interp_handler env k armed x s hw.1 hon
-        rw [hfn] at ihx
-        simp only [Option.map_none] at ihx
-        rw [← ihx]
-        rw [interp_stack] at ho ⊢
-        exact interpList_handler env k armed xs s hw.2 ho
+        have hx := ihx.2 hon
+        rw [hfn] at hx
+        simp only [Option.map_none] at hx
+        rw [← hx]
+        exact interpList_transparent env k tok armed xs _ _ hw.2 ihx.1
       · next hne =>
-        have ihx := interp_handler env k armed x s hw.1 ho
-        cases hf : (interp env k armed x s).fired with
+        refine ⟨ihx.1, fun ho => ?_⟩
+        have hx := ihx.2 ho
+        cases hf : (interp env k tok armed x s cs).fired with
         | none => exact absurd hf (hne ho)
         | some hfs =>
-          rw [hf] at ihx
-          simp only [Option.map_some] at ihx
-          rw [← ihx]
+          rw [hf] at hx
+          simp only [Option.map_some] at hx
+          rw [← hx]
           simp
 end
 
-
 mutual
 /-- Nothing raises by itself: with no armed probe, interpretation under well-formed objects returns. -/
-theorem interp_unarmed_normal (env : Env) (k : K) :
-    ∀ (i : I) (s : Stack), WF i = true → (interp env k false i s).out = .normal
-  | .reflect, s, _ => by simp [interp]
-  | .disp n, s, _ => by
+theorem interp_unarmed_normal (env : Env) (k : K) (tok : Nat) :
+    ∀ (i : I) (s : Stack) (cs : Caches), WF i = true → (interp env k tok false i s cs).out = .normal
+  | .reflect, s, cs, _ => by simp [interp]
+  | .disp n, s, cs, _ => by
       simp only [interp]; split <;> simp
-  | .prio _ l, s, hw => by
-      simp only [interp]; exact interpList_unarmed_normal env k l s (by simpa [WF] using hw)
-  | .memo b, s, hw => by
-      simp only [interp]; exact interp_unarmed_normal env k b s (by simpa [WF] using hw)
-  | .tape old, s, hw => by
+  | .prio _ l, s, cs, hw => by
+      simp only [interp]; exact interpList_unarmed_normal env k tok l s cs (by simpa [WF] using hw)
+  | .memo cid sh b, s, cs, hw => by
       simp only [WF, Bool.and_eq_true] at hw
-      rw [interp_tape_eq env k false old s hw.1]
-      exact interp_unarmed_normal env k old _ hw.2
-  | .subst live b, s, hw => by
+      have ih := interp_unarmed_normal env k tok b s cs hw.2
+      simp only [interp]
+      split
+      · rfl
+      · split
+        · exact ih
+        · exact ih
+  | .tape old, s, cs, hw => by
       simp only [WF, Bool.and_eq_true] at hw
-      rw [interp_subst_eq env k false live b s hw.1, interp_unarmed_normal env k b _ hw.2]
+      rw [interp_tape_eq env k tok false old s cs hw.1]
+      exact interp_unarmed_normal env k tok old _ cs hw.2
+  | .subst live b, s, cs, hw => by
+      simp only [WF, Bool.and_eq_true] at hw
+      rw [interp_subst_eq env k tok false live b s cs hw.1, interp_unarmed_normal env k tok b _ cs hw.2]
       simp only []
       split <;> simp
-theorem interpList_unarmed_normal (env : Env) (k : K) :
-    ∀ (l : List I) (s : Stack), allWF l = true → (interpList env k false l s).out = .normal
-  | [], s, _ => by simp [interpList]
-  | x :: xs, s, hw => by
+theorem interpList_unarmed_normal (env : Env) (k : K) (tok : Nat) :
+    ∀ (l : List I) (s : Stack) (cs : Caches), allWF l = true →
+      (interpList env k tok false l s cs).out = .normal
+  | [], s, cs, _ => by simp [interpList]
+  | x :: xs, s, cs, hw => by
       simp only [allWF, Bool.and_eq_true] at hw
       simp only [interpList]
       split
-      · rw [interp_stack]; exact interpList_unarmed_normal env k xs s hw.2
-      · exact interp_unarmed_normal env k x s hw.1
+      · exact interpList_unarmed_normal env k tok xs _ _ hw.2
+      · exact interp_unarmed_normal env k tok x s cs hw.1
 end
 
 /-- **innermost_interprets.**  A term built while `i` is the innermost context is interpreted by
-    `handler i`, whatever contexts `s` enclose it (whenever the construction returns). -/
-theorem innermost_interprets (env : Env) (k : K) (armed : Bool) (s : Stack) (i : I) (log : List Obs)
-    (hw : WF i = true) (hn : (exec env (.probe k armed) ⟨s ++ [i], log⟩).1 = .normal) :
-    ∃ fs, (exec env (.probe k armed) ⟨s ++ [i], log⟩).2.log = .probe k (handler env k i) fs :: log := by
-  have ht : top? (s ++ [i]) = some i := by simp [top?]
+    `handler i`, whatever contexts `s` enclose it and whatever the (owned) caches hold. -/
+theorem innermost_interprets (env : Env) (k : K) (tok : Nat) (armed : Bool) (s : Stack) (i : I) (st : St)
+    (hst : st.stack = s ++ [i]) (hw : WF i = true) (hc : CacheOK env st.caches)
+    (hn : (exec env (.probe k armed tok) st).1 = .normal) :
+    ∃ fs hit, (exec env (.probe k armed tok) st).2.log
+      = .probe k (handler env k i) fs hit i true :: st.log := by
+  have ht : top? st.stack = some i := by simp [top?, hst]
   simp only [exec, ht] at hn ⊢
-  have hh := interp_handler env k armed i (s ++ [i]) hw hn
-  cases hf : (interp env k armed i (s ++ [i])).fired with
-  | none => rw [hf] at hh; simp only [Option.map_none] at hh; exact ⟨s ++ [i], by rw [← hh]⟩
+  have hh := (interp_transparent env k tok armed i st.stack st.caches hw hc).2 hn
+  rw [hn]
+  cases hf : (interp env k tok armed i st.stack st.caches).fired with
+  | none => rw [hf] at hh; simp only [Option.map_none] at hh; exact ⟨st.stack, false, by rw [← hh]⟩
   | some hfs =>
     obtain ⟨h, fs⟩ := hfs
     rw [hf] at hh; simp only [Option.map_some] at hh
-    exact ⟨fs, by rw [← hh]⟩
+    exact ⟨fs, _, by rw [← hh]⟩
 
 /-- The with-block form: inside `with n:` for a total module-level interpretation `n`, an (unarmed)
     probe is handled by `handler n`, independently of the enclosing stack, and the block restores it. -/
-theorem with_total_interprets (env : Env) (k : K) (n : String) (i : I) (st : St)
-    (hn : env.named n = some i) (ht : i.isTotal = true) (hw : WF i = true) :
-    ∃ fs, exec env (.withI (.named n) (.probe k false)) st =
-      (.normal, ⟨st.stack, .probe k (handler env k i) fs :: st.log⟩) := by
-  have he : enter env (.named n) st.stack = .ok (push i st.stack) := by
+theorem with_total_interprets (env : Env) (k : K) (tok : Nat) (n : String) (i : I) (st : St)
+    (hn : env.named n = some i) (ht : i.isTotal = true) (hw : WF i = true) (hc : CacheOK env st.caches) :
+    ∃ fs hit cs, exec env (.withI (.named n) (.probe k false tok)) st =
+      (.normal, { st with log := .probe k (handler env k i) fs hit i true :: st.log, caches := cs }) := by
+  have he : enter env (.named n) st.stack st.next = .ok (push i st.stack, st.next) := by
     simp [enter, ctxObj, hn, enterI_total st.stack ht]
   have htop : top? (push i st.stack) = some i := top?_push i st.stack
-  have hout := interp_unarmed_normal env k i (push i st.stack) hw
-  have hh := interp_handler env k false i (push i st.stack) hw hout
-  have hs := interp_stack env k false i (push i st.stack)
+  have hout := interp_unarmed_normal env k tok i (push i st.stack) st.caches hw
+  have hh := (interp_transparent env k tok false i (push i st.stack) st.caches hw hc).2 hout
+  have hs := interp_stack env k tok false i (push i st.stack) st.caches
   simp only [exec, he, htop, hout, hs, pop?_push]
-  cases hf : (interp env k false i (push i st.stack)).fired with
-  | none => rw [hf] at hh; simp only [Option.map_none] at hh; exact ⟨push i st.stack, by rw [← hh]⟩
+  cases hf : (interp env k tok false i (push i st.stack) st.caches).fired with
+  | none =>
+    rw [hf] at hh; simp only [Option.map_none] at hh
+    exact ⟨push i st.stack, false, _, by rw [← hh]⟩
   | some hfs =>
     obtain ⟨h, fs⟩ := hfs
     rw [hf] at hh; simp only [Option.map_some] at hh
-    exact ⟨fs, by rw [← hh]⟩
+    exact ⟨fs, _, _, by rw [← hh]⟩
 
 theorem handlerList_append (env : Env) (k : K) : ∀ (l1 l2 : List I),
     handlerList env k (l1 ++ l2) =
@@ -550,7 +732,7 @@ theorem handlerList_subinterps (env : Env) (k : K) (x : I) :
   | prio t l => simp [I.subinterps, handler]
   | reflect => simp [I.subinterps, handlerList, handler]
   | disp n => simp only [I.subinterps, handlerList]; cases handler env k (.disp n) <;> rfl
-  | memo b => simp only [I.subinterps, handlerList]; cases handler env k (.memo b) <;> rfl
+  | memo c sh b => simp only [I.subinterps, handlerList]; cases handler env k (.memo c sh b) <;> rfl
   | tape o => simp only [I.subinterps, handlerList]; cases handler env k (.tape o) <;> rfl
   | subst l b => simp only [I.subinterps, handlerList]; cases handler env k (.subst l b) <;> rfl
 
@@ -594,17 +776,19 @@ theorem partial_leaf_falls_through (env : Env) (k : K) (n : String) (t : I) (s s
     active interpretation, a probe the leaf declines is answered exactly as `t` answers it. -/
 theorem deco_partial_falls_through_to_caller (env : Env) (k : K) (n : String) (t : I) (s s' : Stack)
     (hn : env.named n = some (.disp n)) (ht : top? s = some t)
-    (h : enter env (.named n) s = .ok s') :
+    (nx m : Nat) (h : enter env (.named n) s nx = .ok (s', m)) :
     ∃ p, s' = push p s ∧ handler env k p = if env.rules n k = true then some n else handler env k t := by
-  simp only [enter, ctxObj, hn] at h
-  exact partial_leaf_falls_through env k n t s s' ht h
+  obtain ⟨i, hc, he⟩ := enter_ok h
+  simp only [ctxObj, hn, Except.ok.injEq, Prod.mk.injEq] at hc
+  rw [← hc.1] at he
+  exact partial_leaf_falls_through env k n t s s' ht he
 
 /-! ### refused entry -/
 
 /-- **enter_failure_leaves_stack.**  If `__enter__` raises (the `< 10` assertion, or any other), the
     block's body does not run, nothing is logged, and the state is untouched. -/
 theorem enter_failure_leaves_stack (env : Env) (c : Ctx) (body : Prog) (st : St) (e : Err)
-    (h : enter env c st.stack = .error e) :
+    (h : enter env c st.stack st.next = .error e) :
     exec env (.withI c body) st = (.exc e, st) ∧ exec env (.deco c body) st = (.exc e, st) := by
   simp [exec, h]
 
@@ -644,13 +828,13 @@ theorem enterI_overflow_only (i : I) (s : Stack) (h : enterI i s = .error .asser
       · cases h
 
 /-- `__exit__` never swallows: a block's outcome is its body's outcome. -/
-theorem with_outcome_is_body_outcome (env : Env) (c : Ctx) (body : Prog) (st : St) (s1 : Stack)
-    (h : enter env c st.stack = .ok s1) :
-    (exec env (.withI c body) st).1 = (exec env body { st with stack := s1 }).1 := by
+theorem with_outcome_is_body_outcome (env : Env) (c : Ctx) (body : Prog) (st : St) (s1 : Stack) (n : Nat)
+    (h : enter env c st.stack st.next = .ok (s1, n)) :
+    (exec env (.withI c body) st).1 = (exec env body { st with stack := s1, next := n }).1 := by
   obtain ⟨x, rfl⟩ := enter_push h
-  have ih := exec_restores_stack env body { st with stack := push x st.stack }
+  have ih := exec_restores_stack env body { st with stack := push x st.stack, next := n }
   simp only [exec, h]
-  generalize exec env body { st with stack := push x st.stack } = r at ih
+  generalize exec env body { st with stack := push x st.stack, next := n } = r at ih
   obtain ⟨o, st2⟩ := r
   simp only [] at ih ⊢
   rw [ih, pop?_push]
@@ -707,6 +891,223 @@ theorem stack_stays_total (env : Env) (p : Prog) (st : St) (h : AllTotal st.stac
   exec_obs_invariant AllTotal allTotal_enterClosed env p st h
 
 
+/-! ### memoize() is transparent for whole programs; sharing a cache across bases is not -/
+
+def CtxFresh : Ctx → Bool
+  | .memoShared _ => false
+  | _ => true
+
+/-- the program never passes an explicit `cache=` -/
+def NoShared : Prog → Bool
+  | .withI c b => CtxFresh c && NoShared b
+  | .deco c b => CtxFresh c && NoShared b
+  | .seq a b => NoShared a && NoShared b
+  | .catch b => NoShared b
+  | _ => true
+
+def AllWF (s : Stack) : Prop := ∀ x ∈ s, WF x = true
+
+def EnvWF (env : Env) : Prop := ∀ n i, env.named n = some i → WF i = true
+
+/-- what the harness gates for every probe: the term got the answer of the interpretation that was
+    innermost when it was built -/
+def ProbeOK (env : Env) : Obs → Prop
+  | .at _ => True
+  | .probe k h _ _ top ok => ok = true → h = handler env k top
+
+/-- the decidable form of `ProbeOK` -/
+def probeOKb (env : Env) : Obs → Bool
+  | .at _ => true
+  | .probe k h _ _ top ok => !ok || (h == handler env k top)
+
+theorem probeOKb_iff (env : Env) (o : Obs) : probeOKb env o = true ↔ ProbeOK env o := by
+  cases o with
+  | «at» s => simp [probeOKb, ProbeOK]
+  | probe k h s hit top ok =>
+    cases ok <;> simp [probeOKb, ProbeOK]
+
+theorem allWF_append : ∀ (l1 l2 : List I), allWF (l1 ++ l2) = (allWF l1 && allWF l2)
+  | [], l2 => by simp [allWF]
+  | x :: xs, l2 => by simp [allWF, allWF_append xs l2, Bool.and_assoc]
+
+theorem allWF_subinterps (x : I) : allWF x.subinterps = WF x := by
+  cases x <;> simp [I.subinterps, allWF, WF]
+
+theorem enterI_allWF {i : I} {s s' : Stack} (hs : AllWF s) (hi : WF i = true)
+    (h : enterI i s = .ok s') : AllWF s' := by
+  unfold enterI at h
+  split at h
+  · cases h
+    intro x hx
+    rcases List.mem_append.mp hx with hx | hx
+    · exact hs x hx
+    · simp at hx; rw [hx]; exact hi
+  · split at h
+    · cases h
+    · next t htop =>
+      split at h
+      · cases h
+      · next p hm =>
+        cases h
+        have hwt : WF t = true := hs t (List.mem_of_getLast? htop)
+        intro x hx
+        rcases List.mem_append.mp hx with hx | hx
+        · exact hs x hx
+        · simp at hx
+          rw [hx]
+          unfold mkPrio at hm
+          simp only [List.flatMap_cons, List.flatMap_nil, List.append_nil] at hm
+          split at hm
+          · cases hm
+          · split at hm
+            · cases hm
+            · split at hm
+              · cases hm
+              · cases hm
+                simp [WF, allWF_append, allWF_subinterps, hi, hwt]
+
+theorem ctxObj_wf {env : Env} (henv : EnvWF env) {c : Ctx} {s : Stack} {nx n : Nat} {i : I}
+    (hc : CtxFresh c = true) (hs : AllWF s) (ht : AllTotal s)
+    (h : ctxObj env c s nx = .ok (i, n)) : WF i = true := by
+  cases c with
+  | named nm =>
+    simp only [ctxObj] at h
+    split at h
+    · next i' hn => cases h; exact henv nm _ hn
+    · cases h
+  | memoize =>
+    simp only [ctxObj] at h
+    split at h
+    · next t htop => cases h; simp [WF, hs t (List.mem_of_getLast? htop)]
+    · cases h
+  | memoShared c => simp [CtxFresh] at hc
+  | tape =>
+    simp only [ctxObj] at h
+    split at h
+    · next t htop =>
+      cases h
+      simp [WF, hs t (List.mem_of_getLast? htop), ht t (List.mem_of_getLast? htop)]
+    · cases h
+  | subst live =>
+    simp only [ctxObj] at h
+    split at h
+    · next t htop =>
+      cases h
+      simp [WF, hs t (List.mem_of_getLast? htop), ht t (List.mem_of_getLast? htop)]
+    · cases h
+
+theorem enter_good {env : Env} (henv : EnvWF env) {c : Ctx} {s s' : Stack} {nx n : Nat}
+    (hc : CtxFresh c = true) (hs : AllWF s) (ht : AllTotal s)
+    (h : enter env c s nx = .ok (s', n)) : AllWF s' ∧ AllTotal s' := by
+  obtain ⟨i, hci, he⟩ := enter_ok h
+  exact ⟨enterI_allWF hs (ctxObj_wf henv hc hs ht hci) he, allTotal_enterClosed i s s' ht he⟩
+
+theorem exec_withI_caches (env : Env) (c : Ctx) (body : Prog) (st : St) (s1 : Stack) (n : Nat)
+    (h : enter env c st.stack st.next = .ok (s1, n)) :
+    (exec env (.withI c body) st).2.caches = (exec env body { st with stack := s1, next := n }).2.caches ∧
+    (exec env (.withI c body) st).2.log = (exec env body { st with stack := s1, next := n }).2.log := by
+  simp only [exec, h]
+  generalize exec env body { st with stack := s1, next := n } = r
+  obtain ⟨o, st2⟩ := r
+  simp only []
+  split <;> exact ⟨rfl, rfl⟩
+
+/-- **fresh_memoize_transparent.**  In any program that never passes an explicit `cache=`, started
+    from a stack of total well-formed entries (e.g. `[reflect, eager]`) and caches satisfying the
+    invariant (e.g. none): the cache invariant holds ever after, and EVERY term built anywhere in the
+    program — at any nesting of memoize(), partial interpretations, tapes, substitutions, after any
+    exceptions, however often the same term was built before and under whatever contexts — receives
+    the answer of the interpretation that is innermost at that moment (`handler top`), never an
+    answer cached under a different base. -/
+theorem fresh_memoize_transparent (env : Env) (henv : EnvWF env) :
+    ∀ (p : Prog) (st : St), NoShared p = true → AllWF st.stack → AllTotal st.stack →
+      CacheOK env st.caches →
+      CacheOK env (exec env p st).2.caches ∧
+      ∃ new, (exec env p st).2.log = new ++ st.log ∧ ∀ o ∈ new, ProbeOK env o
+  | .skip, st, _, _, _, hc => ⟨hc, [], rfl, by simp⟩
+  | .obs, st, _, _, _, hc => ⟨hc, [.at st.stack], rfl, by simp [ProbeOK]⟩
+  | .raise, st, _, _, _, hc => ⟨hc, [], rfl, by simp⟩
+  | .probe k armed tok, st, _, hw, _, hc => by
+      simp only [exec]
+      split
+      · exact ⟨hc, [], rfl, by simp⟩
+      · next t htop =>
+        have hwt : WF t = true := hw t (List.mem_of_getLast? htop)
+        have htr := interp_transparent env k tok armed t st.stack st.caches hwt hc
+        refine ⟨htr.1, [_], rfl, ?_⟩
+        intro o ho
+        simp only [List.mem_singleton] at ho
+        subst ho
+        cases hf : (interp env k tok armed t st.stack st.caches).fired with
+        | none =>
+          simp only [ProbeOK]
+          intro hok
+          have hn : (interp env k tok armed t st.stack st.caches).out = .normal := by
+            cases ho' : (interp env k tok armed t st.stack st.caches).out with
+            | normal => rfl
+            | exc e => rw [ho'] at hok; simp at hok
+          have := htr.2 hn
+          rw [hf] at this
+          simpa using this
+        | some hfs =>
+          obtain ⟨h, fs⟩ := hfs
+          simp only [ProbeOK]
+          intro hok
+          have hn : (interp env k tok armed t st.stack st.caches).out = .normal := by
+            cases ho' : (interp env k tok armed t st.stack st.caches).out with
+            | normal => rfl
+            | exc e => rw [ho'] at hok; simp at hok
+          have := htr.2 hn
+          rw [hf] at this
+          simpa using this
+  | .withI c body, st, hp, hw, ht, hc => by
+      simp only [NoShared, Bool.and_eq_true] at hp
+      cases he : enter env c st.stack st.next with
+      | error e => simp only [exec, he]; exact ⟨hc, [], rfl, by simp⟩
+      | ok r =>
+        obtain ⟨s1, n⟩ := r
+        obtain ⟨hw1, ht1⟩ := enter_good henv hp.1 hw ht he
+        have ih := fresh_memoize_transparent env henv body { st with stack := s1, next := n } hp.2 hw1 ht1 hc
+        obtain ⟨e1, e2⟩ := exec_withI_caches env c body st s1 n he
+        rw [e1, e2]
+        exact ih
+  | .deco c body, st, hp, hw, ht, hc => by
+      simp only [NoShared, Bool.and_eq_true] at hp
+      rw [deco_is_with_at_call_time]
+      cases he : enter env c st.stack st.next with
+      | error e => simp only [exec, he]; exact ⟨hc, [], rfl, by simp⟩
+      | ok r =>
+        obtain ⟨s1, n⟩ := r
+        obtain ⟨hw1, ht1⟩ := enter_good henv hp.1 hw ht he
+        have ih := fresh_memoize_transparent env henv body { st with stack := s1, next := n } hp.2 hw1 ht1 hc
+        obtain ⟨e1, e2⟩ := exec_withI_caches env c body st s1 n he
+        rw [e1, e2]
+        exact ih
+  | .seq a b, st, hp, hw, ht, hc => by
+      simp only [NoShared, Bool.and_eq_true] at hp
+      obtain ⟨hc1, new1, hl1, hq1⟩ := fresh_memoize_transparent env henv a st hp.1 hw ht hc
+      have hst := exec_restores_stack env a st
+      simp only [exec]
+      split
+      · next st1 h =>
+        rw [h] at hl1 hst hc1
+        simp only [] at hl1 hst hc1
+        obtain ⟨hc2, new2, hl2, hq2⟩ := fresh_memoize_transparent env henv b st1 hp.2
+          (by rw [hst]; exact hw) (by rw [hst]; exact ht) hc1
+        refine ⟨hc2, new2 ++ new1, by rw [hl2, hl1, List.append_assoc], ?_⟩
+        intro o ho
+        rcases List.mem_append.mp ho with h' | h'
+        · exact hq2 o h'
+        · exact hq1 o h'
+      · next e st1 h =>
+        rw [h] at hl1 hc1
+        exact ⟨hc1, new1, hl1, hq1⟩
+  | .catch body, st, hp, hw, ht, hc => by
+      simp only [NoShared] at hp
+      obtain ⟨hc1, new, hl, hq⟩ := fresh_memoize_transparent env henv body st hp hw ht hc
+      simp only [exec]
+      exact ⟨hc1, new, hl, hq⟩
+
 /-! ### the hypotheses are satisfiable (a hand-written copy of the pinned tables + the harness's P, W) -/
 
 def exEnv : Env :=
@@ -719,6 +1120,7 @@ def exEnv : Env :=
 def exEager : I := .prio (some "eager") [.disp "eager_base", .disp "normalize_base", .reflect]
 def exLazy : I := .prio (some "lazy") [.disp "lazy_base", .reflect]
 def exBase : Stack := [.reflect, exEager]
+def exSt : St := { stack := exBase, log := [] }
 
 def isOk {α : Type} : Except Err α → Bool
   | .ok _ => true
@@ -727,7 +1129,9 @@ def isOk {α : Type} : Except Err α → Bool
 def nestNamed (env : Env) (names : List String) (s : Stack) : Except Err Stack :=
   names.foldl (fun acc n => match acc with
     | .error e => .error e
-    | .ok s => enter env (.named n) s) (.ok s)
+    | .ok s => (enter env (.named n) s 0).map Prod.fst) (.ok s)
+
+def logOf (r : Outcome × St) : List String := r.2.log.reverse.map (Obs.canon fun _ => true)
 
 /-- the names resolve to the objects above; the base stack is total and well-formed -/
 example : (exEnv.named "eager").map I.canon = some "eager" := by decide
@@ -737,7 +1141,7 @@ example : isOk (nestNamed exEnv ["W", "W"] exBase) = true := by decide
 example : (match nestNamed exEnv ["W", "W", "W"] exBase with
     | .error .assertOverflow => true | _ => false) = true := by decide
 /-- … so `enter_failure_leaves_stack` and `enterI_overflow` are not vacuous. -/
-example : (match exec exEnv (.withI (.named "W") (.withI (.named "W") (.withI (.named "W") .obs))) ⟨exBase, []⟩ with
+example : (match exec exEnv (.withI (.named "W") (.withI (.named "W") (.withI (.named "W") .obs))) exSt with
     | (.exc .assertOverflow, st) => canonStack st.stack == "reflect,eager" && st.log.length == 0
     | _ => false) = true := by decide
 /-- `partial_falls_through`: `with lazy: with W: with P:` answers `a` by P, `b` by W2, `num` by reflect. -/
@@ -748,12 +1152,59 @@ example : (match nestNamed exEnv ["lazy", "W", "P"] exBase with
 /- an exception raised inside a rule, inside the tape's temporary push, inside a decorated call:
     everything is unwound, and the rule saw the tape's extra entry. -/
 set_option maxRecDepth 16384 in
-example : (match exec exEnv (.withI (.named "P") (.deco .tape (.probe "bin" true))) ⟨exBase, []⟩ with
+example : (match exec exEnv (.withI (.named "P") (.deco .tape (.probe "bin" true 1))) exSt with
     | (.exc .probe, st) => canonStack st.stack == "reflect,eager" &&
         st.log.map (Obs.canon fun _ => true) ==
           ["?bin=P@reflect,eager,[P eager_base normalize_base reflect]," ++
            "[tape([P eager_base normalize_base reflect]) P eager_base normalize_base reflect]," ++
            "[P eager_base normalize_base reflect]"]
     | _ => false) = true := by decide
+
+/-- `memoize() → P → memoize()` with the SAME term built at every level (the shape of seeded defect
+    C17_5): with fresh caches the inner blocks answer by P (a real hit the second time), and after P
+    is left the outer block answers by reflect again. -/
+def exMemoProg (inner : Ctx) (outer : Ctx) : Prog :=
+  .withI outer (.seq (.probe "a" false 1)
+    (.seq (.withI (.named "P") (.seq (.probe "a" false 1)
+      (.withI inner (.seq (.probe "a" false 1) (.probe "a" false 1)))))
+    (.probe "a" false 1)))
+
+def handlersOf (r : Outcome × St) : List (Option String × Bool) :=
+  r.2.log.reverse.filterMap fun o => match o with
+    | .probe _ h _ hit _ _ => some (h, hit)
+    | .at _ => none
+
+set_option maxRecDepth 16384 in
+example : handlersOf (exec exEnv (exMemoProg .memoize .memoize) exSt) =
+    [(some "reflect", false), (some "P", false), (some "P", false), (some "P", true), (some "reflect", true)] := by
+  decide
+
+/-- **shared_cache_unsound_witness.**  The explicit-cache form is the user's responsibility: the same
+    dict used under two different bases (`memoize(cache=d) → P → memoize(cache=d)`) answers the
+    inner probes from the entry made under the outer base — by `reflect`, although the innermost
+    interpretation's answer is P's (so `fresh_memoize_transparent` has no analogue for shared caches;
+    this is also exactly what a `memoize()` that silently re-uses an enclosing cache would do). -/
+theorem shared_cache_unsound_witness :
+    ∃ o ∈ (exec exEnv (exMemoProg (.memoShared 1) (.memoShared 1)) exSt).2.log, ¬ ProbeOK exEnv o := by
+  have h : ((exec exEnv (exMemoProg (.memoShared 1) (.memoShared 1)) exSt).2.log.all (probeOKb exEnv)) = false := by
+    decide
+  have h' : ¬ ∀ o ∈ (exec exEnv (exMemoProg (.memoShared 1) (.memoShared 1)) exSt).2.log,
+      probeOKb exEnv o = true := by
+    intro hall
+    rw [List.all_eq_true.mpr hall] at h
+    cases h
+  apply Classical.byContradiction
+  intro hne
+  apply h'
+  intro o ho
+  cases hb : probeOKb exEnv o with
+  | true => rfl
+  | false =>
+    exfalso
+    apply hne
+    refine ⟨o, ho, fun hok => ?_⟩
+    rw [(probeOKb_iff exEnv o).mpr hok] at hb
+    cases hb
+
 
 end FV.Props.C17
